@@ -17,6 +17,8 @@
 from types import FrameType
 from typing import Optional, TYPE_CHECKING
 
+import deep.logging
+
 from deep.processor.context.action_context import ActionContext
 from deep.processor.context.action_results import ActionResult, ActionCallback
 
@@ -42,7 +44,11 @@ class SpanActionCallback(ActionCallback):
         :return: True, to keep this callback until next match.
         """
         for span in self.__spans:
-            span.close()
+            try:
+                span.close()
+            except Exception:
+                # one span processor failing must not stop the other spans from being closed (or reach the app)
+                deep.logging.exception("Failed to close span %s", span)
         return False
 
 
@@ -86,7 +92,12 @@ class SpanActionContext(ActionContext):
         spans = []
 
         for span_processor in self.trigger_context.config.span_processors:
-            span = span_processor.create_span(name, self.trigger_context.id, self.location_action.tracepoint.id)
+            try:
+                span = span_processor.create_span(name, self.trigger_context.id, self.location_action.tracepoint.id)
+            except Exception:
+                # one span processor failing must not stop the others from creating their span
+                deep.logging.exception("Failed to create span with %s", span_processor)
+                continue
             if span:
                 spans.append(span)
 
